@@ -24,8 +24,10 @@ RULE = (
     "extremes: single-orientation and seeded-uniform families. Invariance tolerances count the "
     "pairs whose misorientation angle lies within float32 rounding of a histogram bin edge "
     "(each may legitimately change bins: 1/n_pairs each). batched: stacks of 1..5 snapshots x "
-    "worker counts 1..16 x ALL completion orders of the virtual pool, through pool= and through "
-    "the module-level Pool factory; every real-pool run (W = 1..4) must equal the model's "
+    "worker counts 1..16 x ALL completion orders of the virtual pool, and stacks of 6..16 "
+    "snapshots x worker counts 1..16 x all completion orders with <= 3 (thorough 4) departures from "
+    "in-order completion (thorough: 6 and 7 in full), through pool= and through "
+    "the module-level Pool factory; every real-pool run (W = 1..4, external and self-made pool) must equal the model's "
     "behaviour. Non-trivial: >= 3 distinct pair angles / a schedule that is not submission "
     "order; distinct = case key / schedule."
 )
@@ -34,7 +36,7 @@ ASSUMPTIONS = [
     "'close to 0 for uniformly random orientations' is decided on a fixed finite family of seeded uniform sets with the loose bounds 0.25 (200 grains) / 0.35 (40 grains): a finite family, not a convergence proof",
     "the virtual pool implements the documented ordering contracts of multiprocessing.Pool (imap: submission order; imap_unordered: completion order; map/starmap: list in submission order)",
 ]
-BOUND = {"quick": "sets <= 40 grains; stacks <= 5 snapshots; workers 1..16; real-pool conformance W = 1..4", "thorough": "sets <= 200 grains; real-pool conformance W = 1..16"}
+BOUND = {"quick": "sets <= 40 grains; stacks <= 5 snapshots (all orders), <= 16 (<= 3 deviations); workers 1..16; real-pool conformance W = 1..4", "thorough": "sets <= 200 grains; real-pool conformance W = 1..16"}
 
 SYSTEMS = ["triclinic", "monoclinic", "orthorhombic", "rhombohedral", "tetragonal", "hexagonal"]
 _geo = _diag = _stats = None
@@ -154,6 +156,16 @@ def gen_cases(tier, seed):
     for N in range(1, 6):
         for via in ("arg", "module"):
             keys.append(dict(part="batched", N=N, via=via))
+    # longer stacks (every length up to 16):
+    # all completion orders with at most `dev` departures from in-order completion
+    # (iterative deviation bounding; seed C14d needs length = k.W with k >= 2, k != W)
+    for N in range(6, 17):
+        for via in ("arg", "module"):
+            keys.append(dict(part="batched", N=N, via=via, dev=3 if tier == "quick" else 4))
+    if tier == "thorough":
+        for N in (6, 7):
+            for via in ("arg", "module"):
+                keys.append(dict(part="batched", N=N, via=via))
     # hidden state: the value for a system must not depend on which systems were evaluated
     # before it in the same process (one fresh interpreter per first system)
     for first in SEQ_SYSTEMS:
@@ -555,21 +567,35 @@ class VirtualPool:
         return R()
 
 
-def n_schedules(n, w):
-    """Independent recurrence for the number of completion orders."""
+def n_schedules(n, w, dev=None):
+    """Independent recurrence for the number of completion orders (with at most `dev`
+    choices other than the oldest running task, if given)."""
     from functools import lru_cache
 
     @lru_cache(None)
-    def rec(nxt, running):
+    def rec(nxt, running, budget):
         # fill
         while nxt < n and running < w:
             running += 1
             nxt += 1
         if running == 0:
             return 1
-        return running * rec(nxt, running - 1)
+        if budget is None:
+            return running * rec(nxt, running - 1, None)
+        tot = rec(nxt, running - 1, budget)
+        if budget > 0:
+            tot += (running - 1) * rec(nxt, running - 1, budget - 1)
+        return tot
 
-    return rec(0, 0)
+    return rec(0, 0, dev)
+
+
+def batch_stack(N):
+    from scipy.spatial.transform import Rotation
+
+    tex = [alph.texture(["random", "cluster", "girdle", "random2", "single"][i], 4) for i in range(min(N, 5))]
+    tex += [Rotation.random(4, random_state=7000 + alph.SEED + i).as_matrix() for i in range(5, N)]
+    return np.array(tex)
 
 
 def run_batched(key):
@@ -577,7 +603,8 @@ def run_batched(key):
     g, d, s = mods()
     N = key["N"]
     system = g.LatticeSystem.triclinic  # the system that is right on every tree; order is what is checked
-    stack = np.array([alph.texture(["random", "cluster", "girdle", "random2", "single"][i], 4) for i in range(N)])
+    stack = batch_stack(N)
+    dev = key.get("dev")
     direct = [float(d.misorientation_index(stack[i], system)) for i in range(N)]
     if len(set(np.round(direct, 12))) != N:
         raise RuntimeError("snapshot values must be pairwise distinct for the order to be observable")
@@ -588,7 +615,7 @@ def run_batched(key):
     for W in range(1, 17):
         count = 0
         stack_ = [[]]
-        while stack_:
+        while stack_ and len(res["viol"]) <= 100:
             prefix = stack_.pop()
             vp = VirtualPool(W, prefix, memo)
             res["n"] += 1
@@ -624,9 +651,15 @@ def run_batched(key):
                 noninorder += 1
             # branch on every alternative after the prefix
             for i in range(len(prefix), len(vp.points)):
+                if dev is not None and sum(1 for c in prefix if c) >= dev:
+                    break
                 for alt in range(1, vp.points[i]):
                     stack_.append(list((prefix + [0] * len(vp.points))[:i]) + [alt])
-        expect = n_schedules(N, W)
+        if len(res["viol"]) > 100:
+            res["notes"]["batched_case_stopped_after_100_violations"] = 1
+            nsched += count
+            break
+        expect = n_schedules(N, W, dev)
         if count != expect:
             raise RuntimeError(f"explorer visited {count} schedules, recurrence says {expect} (N={N}, W={W})")
         nsched += count
@@ -650,8 +683,8 @@ def finalize(agg, tier, seed):
     system = g.LatticeSystem.triclinic
     viol = []
     runs = 0
-    for N in (1, 3, 5):
-        stack = np.array([alph.texture(["random", "cluster", "girdle", "random2", "single"][i], 4) for i in range(N)])
+    for N in (1, 3, 5, 6, 8):
+        stack = batch_stack(N)
         direct = np.array([float(d.misorientation_index(stack[i], system)) for i in range(N)])
         for W in range(1, 5 if tier == "quick" else 17):
             with get_context("fork").Pool(W) as pool:
@@ -659,6 +692,11 @@ def finalize(agg, tier, seed):
             runs += 1
             if not np.array_equal(out, direct):
                 viol.append({"clause": "real_pool_conformance", "key": {"part": "batched", "N": N, "W": W, "via": "real"}, "detail": {"got": out, "expected": direct}})
+            if N in (3, 6):  # the pool the function makes itself
+                out = np.asarray(d.misorientation_indices(stack, system, ncpus=W), float)
+                runs += 1
+                if not np.array_equal(out, direct):
+                    viol.append({"clause": "real_pool_conformance", "key": {"part": "batched", "N": N, "W": W, "via": "real_internal"}, "detail": {"got": out, "expected": direct}})
     # hidden state: M(system, set) evaluated after other systems vs evaluated first
     seq = {k: v for k, v in agg["notes"].items() if k.startswith("seqval|")}
     ncmp = 0
